@@ -209,6 +209,43 @@ func cmdCheck(args []string) int {
 			}
 		}
 	}
+	// callee contracts relied upon that carry no property tag at all are verified here too (helpers), transitively;
+	// callee contracts tagged for other properties are verified by those properties' checks (listed in the evidence)
+	verified := map[*FuncContract]bool{}
+	for _, cf := range e.files {
+		for _, fc := range cf.Funcs {
+			if !fc.Extern && servesProperty(fc, *prop) {
+				verified[fc] = true
+			}
+		}
+	}
+	var reliedOn []string
+	untagged := func(fc *FuncContract) bool {
+		if len(fc.Tags) > 0 {
+			return false
+		}
+		for _, c := range append(append([]*Clause{}, fc.Requires...), fc.Ensures...) {
+			if len(c.Tags) > 0 {
+				return false
+			}
+		}
+		return true
+	}
+	for i := 0; i < len(results); i++ {
+		used := results[i].Used
+		sort.Slice(used, func(a, b int) bool { return used[a].Key < used[b].Key })
+		for _, fc := range used {
+			if verified[fc] {
+				continue
+			}
+			verified[fc] = true
+			if untagged(fc) {
+				results = append(results, e.verifyFunc(fc))
+			} else {
+				reliedOn = append(reliedOn, fc.Key+" (verified by the checks of "+strings.Join(tagsOf(fc), ",")+")")
+			}
+		}
+	}
 	var obls []*Obligation
 	for _, res := range results {
 		for _, o := range res.Obligations {
@@ -357,6 +394,9 @@ func cmdCheck(args []string) int {
 	for _, x := range uniq(natives) {
 		assumptions = append(assumptions, "trusted library model: "+x)
 	}
+	for _, x := range uniq(reliedOn) {
+		assumptions = append(assumptions, "callee contract relied upon, verified under another property: "+x)
+	}
 	for _, x := range uniq(noops) {
 		assumptions = append(assumptions, "treated as side-effect-free no-op: "+x)
 	}
@@ -384,4 +424,17 @@ func cmdCheck(args []string) int {
 		return 1
 	}
 	return 0
+}
+
+func tagsOf(fc *FuncContract) []string {
+	m := map[string]bool{}
+	for _, t := range fc.Tags {
+		m[t] = true
+	}
+	for _, c := range append(append([]*Clause{}, fc.Requires...), fc.Ensures...) {
+		for _, t := range c.Tags {
+			m[t] = true
+		}
+	}
+	return keysOf(m)
 }
